@@ -61,3 +61,192 @@ Print Assumptions st_registry_names_distinct.
 Example st_02413_five :
   eval_in src_table 20 5 src_st_02413 = Some [0; 3; 1; 4; 2].
 Proof. vm_compute. reflexivity. Qed.
+
+(* ====================================================================== *)
+(* time_slice_diffs (nipy/algorithms/diagnostics/timediff.py)              *)
+(* ====================================================================== *)
+From Coq Require Import ZArith.
+From NV.Lib Require Import C19Index.
+From NV.C19 Require Import TsdModel TsdProofs.
+
+(* (6) Axis-normalisation arithmetic, for EVERY ndim >= 2: negative axes and the
+   default slice axis run exactly the computation of their non-negative
+   counterparts (`slice_axis=None` = last axis that is not the time axis). *)
+Theorem tsd_axis_normalisation :
+  forall (a : nda Z) (ta sa : nat),
+  let n := length (shp a) in
+  ta < n -> sa < n -> ta <> sa ->
+  let tpos := Z.of_nat ta in let tneg := (Z.of_nat ta - Z.of_nat n)%Z in
+  let spos := Some (Z.of_nat sa) in let sneg := Some (Z.of_nat sa - Z.of_nat n)%Z in
+  tsd a tneg spos = tsd a tpos spos /\ tsd a tpos sneg = tsd a tpos spos /\
+  tsd a tneg sneg = tsd a tpos spos /\
+  (sa = (if Nat.eqb ta (n - 1) then n - 2 else n - 1) ->
+     tsd a tpos None = tsd a tpos spos /\ tsd a tneg None = tsd a tpos spos) /\
+  tsd a tpos (Some tpos) = SameAxis /\ tsd a tneg (Some tpos) = SameAxis.
+Proof.
+  intros a ta sa n Ht Hs Hne tpos tneg spos sneg.
+  assert (Hn : 2 <= n) by lia.
+  assert (P := fun tv sv H1 H2 => tsd_unfold a ta sa tv sv Ht Hs Hne H1 H2). fold n in P.
+  assert (E0 := P tpos spos (norm_axis_pos n ta) (norm_axis_pos n sa)).
+  repeat split.
+  - rewrite E0. apply P; [now apply norm_axis_neg|apply norm_axis_pos].
+  - rewrite E0. apply P; [apply norm_axis_pos|now apply (norm_axis_neg n sa)].
+  - rewrite E0. apply P; [now apply norm_axis_neg|now apply (norm_axis_neg n sa)].
+  - rewrite E0. apply P; [apply norm_axis_pos|]. rewrite norm_slice_default by assumption. now f_equal.
+  - rewrite E0. apply P; [now apply norm_axis_neg|]. rewrite norm_slice_default by assumption. now f_equal.
+  - unfold tsd. fold n. unfold tpos. destruct (Z.ltb_spec (Z.of_nat ta) 0); [lia|].
+    now rewrite Z.eqb_refl.
+  - unfold tsd. fold n. unfold tneg, tpos. destruct (Z.ltb_spec (Z.of_nat ta - Z.of_nat n) 0); [|lia].
+    destruct (Z.ltb_spec (Z.of_nat ta) 0); [lia|].
+    replace (Z.of_nat ta - Z.of_nat n + Z.of_nat n)%Z with (Z.of_nat ta) by lia. now rewrite Z.eqb_refl.
+Qed.
+Print Assumptions tsd_axis_normalisation.
+
+(* (7) Axis equivariance, for EVERY shape, every ndim >= 2 and every valid
+   (time, slice) axis specification incl. negatives / None: the result is the
+   default-position result `tsd moved 0 1` on the axis-moved array `moved`
+   (shape (T, S, other extents in order); entry (t,s,r) = entry of `a` with t on
+   the time axis, s on the slice axis, r on the others), with the two volume
+   outputs transposed back (entry v of the output = entry (v[slice], v without
+   slice) of the default-position volume); the 1-d/2-d outputs are unchanged. *)
+Theorem tsd_axis_equivariant :
+  forall (a : nda Z) (ta sa : nat) (tv : Z) (sv : option Z),
+  let n := length (shp a) in
+  let sav := slice_in_vol ta sa in
+  ta < n -> sa < n -> ta <> sa ->
+  norm_axis n tv = Z.of_nat ta -> norm_slice n (Z.of_nat ta) sv = Z.of_nat sa ->
+  exists moved o0,
+    shp moved = nth ta (shp a) 0 :: nth sa (shp a) 0 :: remove_at sav (remove_at ta (shp a))
+    /\ (forall t s r, at_ moved (t :: s :: r) = at_ a (insert_at ta t (insert_at sav s r)))
+    /\ tsd moved 0 (Some 1%Z) = Ok o0
+    /\ tsd a tv sv = Ok (rollback (S sav) o0)
+    /\ (forall v, sav < length v ->
+          at_ (diff2_mean_vol (rollback (S sav) o0)) v = at_ (diff2_mean_vol o0) (nth sav v 0 :: remove_at sav v)
+          /\ at_ (slice_diff2_max_vol (rollback (S sav) o0)) v
+             = at_ (slice_diff2_max_vol o0) (nth sav v 0 :: remove_at sav v)).
+Proof. exact tsd_axis_equivariant_lemma. Qed.
+Print Assumptions tsd_axis_equivariant.
+
+(* (8) Definition, on the ORIGINAL axis order, for every shape and axis pair:
+   each output equals the stated mean / selection of successive-volume squared
+   differences d2o a ta t v = (a[v with t+1 on the time axis] - a[v with t on the time axis])^2. *)
+Theorem tsd_definition :
+  forall (a : nda Z) (ta sa : nat) (tv : Z) (sv : option Z) (o : tsd_out),
+  let n := length (shp a) in
+  let sav := slice_in_vol ta sa in
+  let nT := nth ta (shp a) 0 in let nS := nth sa (shp a) 0 in
+  let R := remove_at sav (remove_at ta (shp a)) in
+  ta < n -> sa < n -> ta <> sa ->
+  norm_axis n tv = Z.of_nat ta -> norm_slice n (Z.of_nat ta) sv = Z.of_nat sa ->
+  tsd a tv sv = Ok o ->
+  volume_means o
+    = map (fun t => zmean (map (fun v => at_ a (insert_at ta t (move_elem 0 0 sav v))) (indices (nS :: R)))) (seq 0 nT)
+  /\ slice_mean_diff2 o = map (slice_means_spec a ta sav nS R) (seq 0 (nT - 1))
+  /\ volume_mean_diff2 o = map qmean (slice_mean_diff2 o)
+  /\ shp (diff2_mean_vol o) = remove_at ta (shp a)
+  /\ shp (slice_diff2_max_vol o) = remove_at ta (shp a)
+  /\ (forall v, length v = n - 1 ->
+        at_ (diff2_mean_vol o) v
+        = (inject_Z (zsum (map (fun t => d2o a ta t v) (seq 0 (nT - 1)))) / inject_Z (Z.of_nat (nT - 1)))%Q)
+  /\ (forall v, length v = n - 1 ->
+        at_ (slice_diff2_max_vol o) v
+        = match snd (nth (nth sav v 0) (run_max nS (slice_mean_diff2 o)) (0%Q, None)) with
+          | None => 0%Q
+          | Some t => inject_Z (d2o a ta t v)
+          end)
+  /\ dmv_nan o = Nat.eqb (nT - 1) 0.
+Proof.
+  intros a ta sa tv sv o n sav nT nS R Ht Hs Hne H1 H2 H3.
+  exact (tsd_definition_lemma a ta sa Ht Hs Hne tv sv o H1 H2 H3).
+Qed.
+Print Assumptions tsd_definition.
+
+(* (9) Running maxima (strict `>` update from an initial 0): per slice s the
+   stored slice is the squared difference at the FIRST time whose slice mean
+   attains the maximum over time, if some slice mean is positive; otherwise the
+   slice keeps its initial zeros. *)
+Theorem tsd_running_max :
+  forall (a : nda Z) nT nS R s,
+  shp a = nT :: nS :: R -> s < nS ->
+  let col := map (fun t => nth s (slice_means a nS R t) 0%Q) (seq 0 (nT - 1)) in
+  let o := tsd_core a in
+  (forall r, (forall x, In x col -> (x <= 0)%Q) -> at_ (slice_diff2_max_vol o) (s :: r) = 0%Q) /\
+  (forall x, In x col -> (0 < x)%Q ->
+     exists t, t < nT - 1
+       /\ (forall r, at_ (slice_diff2_max_vol o) (s :: r) = inject_Z (d2 a t (s :: r)))
+       /\ (forall x', In x' col -> (x' <= nth t col 0%Q)%Q)
+       /\ (forall t', t' < t -> (nth t' col 0%Q < nth t col 0%Q)%Q)).
+Proof. exact tsd_running_max_lemma. Qed.
+Print Assumptions tsd_running_max.
+
+(* (10) The documented 'mean over voxels in the volume' equals the computed
+   mean over slices of the slice means. *)
+Theorem tsd_volume_mean_is_mean_of_slice_means :
+  forall (a : nda Z) nS R t,
+  (qmean (slice_means a nS R t) == zmean (map (fun v => d2 a t v) (indices (nS :: R))))%Q.
+Proof. exact volds_is_volume_mean. Qed.
+Print Assumptions tsd_volume_mean_is_mean_of_slice_means.
+
+(* (11) The harness boundary is lossless: flattening the index-function view of
+   row-major data gives the data back. *)
+Theorem tsd_flat_roundtrip :
+  forall (s : list nat) (data : list Z), length data = prod s -> to_flat (of_flat 0%Z s data) = data.
+Proof.
+  intros s data H. unfold to_flat, of_flat. cbn [shp at_].
+  rewrite <- (map_map (ravel s) (fun m => nth m data 0%Z)), map_ravel_indices, <- H.
+  clear H. induction data as [|x l IH] using rev_ind; [reflexivity|].
+  rewrite app_length. cbn [length]. rewrite Nat.add_1_r, seq_S, map_app. cbn [map Nat.add].
+  rewrite app_nth2 by lia. rewrite Nat.sub_diag. cbn [nth]. f_equal.
+  rewrite <- IH at 2. apply map_ext_in. intros m Hm. apply in_seq in Hm. apply app_nth1. lia.
+Qed.
+Print Assumptions tsd_flat_roundtrip.
+
+(* non-vacuity: a (2,2,2) array, time axis -3 (= 0), default slice axis (= 2) *)
+Example tsd_example :
+  match tsd (of_flat 0%Z [2;2;2] [1;2;3;4;5;9;3;0]%Z) (-3)%Z None with
+  | Ok o => (slice_mean_diff2 o, to_flat (slice_diff2_max_vol o), shp (diff2_mean_vol o))
+  | _ => ([], [], [])
+  end = ([[ (16#2)%Q; (65#2)%Q ]], [16#1; 49#1; 0#1; 16#1]%Q, [2; 2]).
+Proof. vm_compute. reflexivity. Qed.
+
+(* ====================================================================== *)
+(* labs/mask.py                                                            *)
+(* ====================================================================== *)
+From NV.C19 Require Import MaskModel MaskProofs.
+
+(* (12) compute_mask is invariant under positive affine intensity changes
+   x -> a x + b (a > 0), for ALL volumes, reference volumes and window fractions:
+   sorting commutes with the order isomorphism, the gaps scale by a, the first
+   arg-max is unchanged, the threshold maps to a t + b and `>=` is preserved -
+   the selected voxels are identical (and the call fails on the same inputs). *)
+Theorem mask_threshold_affine_invariant :
+  forall (a b : Q), (0 < a)%Q ->
+  forall (xs ref : list Q) (m M : Q),
+    opt_affine a b (mask_threshold (map (aff a b) xs) m M false) (mask_threshold xs m M false)
+    /\ compute_mask_raw (map (aff a b) xs) (map (aff a b) ref) m M false = compute_mask_raw xs ref m M false.
+Proof.
+  intros a b Ha xs ref m M. split; [now apply threshold_affine|now apply mask_affine].
+Qed.
+Print Assumptions mask_threshold_affine_invariant.
+
+(* (13) intersect_masks rule `count > min(threshold, 1 - 1e-7) * n` (exact product)
+   for 1 <= n < 10^7 masks and a voxel contained in c of them:
+   threshold 0 = union, threshold 1 = intersection of all masks, and below the
+   clip the voxel is kept iff c > threshold * n. *)
+Theorem intersect_threshold_spec :
+  forall (n : nat) (thr : Q) (c : Z),
+  let N := inject_Z (Z.of_nat n) in
+  let sel := negb (Qle_bool (inject_Z c) (clip_threshold thr * N)) in
+  (0 <= thr)%Q -> (thr <= 1)%Q -> 1 <= n -> (Z.of_nat n < 10000000)%Z -> (0 <= c <= Z.of_nat n)%Z ->
+  ((thr == 0)%Q -> (sel = true <-> (0 < c)%Z)) /\
+  ((thr == 1)%Q -> (sel = true <-> c = Z.of_nat n)) /\
+  ((thr <= 1 - (1 # 10000000))%Q -> (sel = true <-> (thr * N < inject_Z c)%Q)).
+Proof. exact intersect_rule. Qed.
+Print Assumptions intersect_threshold_spec.
+
+(* non-vacuity: sorted values 0 0 1 1 2 9 10 10, window [2, 7): first largest gap 2 -> 9, threshold 11/2 *)
+Example mask_threshold_example :
+  mask_threshold [10; 0; 1; 9; 2; 0; 10; 1]%Q (1 # 4) (7 # 8) false = Some ((1 # 2) * (2 + 9))%Q
+  /\ compute_mask_raw [10; 0; 1; 9; 2; 0; 10; 1]%Q [10; 0; 1; 9; 2; 0; 10; 1]%Q (1 # 4) (7 # 8) false
+     = Some [true; false; false; true; false; false; true; false].
+Proof. vm_compute. split; reflexivity. Qed.
